@@ -103,11 +103,11 @@ impl Rule for AppendTextComment {
             return Ok(());
         }
 
-        let shift_lines = text.lines().count();
-        ShiftTokenLine::new(shift_lines as isize).flawless_process(block, context);
-
         match self.location {
             AppendLocation::Start => {
+                let shift_lines = text.lines().count();
+                ShiftTokenLine::new(shift_lines as isize).flawless_process(block, context);
+
                 self.location
                     .append_comment(block.mutate_first_token(), text);
             }
